@@ -27,10 +27,13 @@ ASSUMPTIONS = ["reference: coordinate maps of the inputs (mc/ref.py); python lis
 X = {"eq": ("i", [10, 20]), "perm": ("i", [20, 10]), "ovl": ("i", [20, 30]), "disj": ("i", [40, 50]), "flt": ("f", [10.0, 20.0]), "one": ("i", [10]), "one2": ("i", [20])}
 Y = {"eq": ("O", ["a", "b"]), "perm": ("O", ["b", "a"]), "ovl": ("O", ["b", "c"]), "disj": ("O", ["p", "q"])}
 Z = {"eq": ("f", [0.5, 1.5]), "perm": ("f", [1.5, 0.5])}
+# 3-label axes: mismatches that AGREE in some positions (reversal with a fixed point, overlap sharing positions, rotation)
+X.update({"eq3": ("i", [10, 20, 30]), "rev3": ("i", [30, 20, 10]), "ovl3": ("i", [10, 20, 40]), "rot3": ("i", [20, 30, 10])})
+Y.update({"eq3": ("O", ["a", "b", "c"]), "rev3": ("O", ["c", "b", "a"]), "ovl3": ("O", ["a", "b", "d"]), "swap3": ("O", ["a", "c", "b"])})
 
 
 def bounds(tier):
-    return {"max_arrays": 3 if tier == "quick" else 4, "shapes": "2x2, 2x2x2 (square), 1x2", "keys": ["int", "str"]}
+    return {"max_arrays": 3 if tier == "quick" else 4, "shapes": "2x2, 3x3, 2x2x2 (square), 1x2", "keys": ["int", "str"]}
 
 
 # an array variant = (x-variant, y-variant, dim-order)
@@ -38,6 +41,8 @@ VARS2 = [("eq", "eq", "xy"), ("eq", "perm", "xy"), ("eq", "ovl", "xy"), ("eq", "
          ("disj", "eq", "xy"), ("eq", "eq", "yx"), ("eq", "perm", "yx"), ("disj", "eq", "yx"), ("flt", "eq", "xy"), ("perm", "perm", "xy")]
 VARS3 = [("eq", "eq", "xyz"), ("eq", "perm", "xyz"), ("disj", "eq", "xyz"), ("eq", "eq", "xzy"), ("eq", "eq", "zyx"), ("disj", "eq", "xzy"),
          ("eq", "eq", "yxz"), ("perm", "eq", "xyz")]
+VARS33 = [("eq3", "eq3", "xy"), ("eq3", "rev3", "xy"), ("eq3", "ovl3", "xy"), ("eq3", "swap3", "xy"), ("rev3", "eq3", "xy"), ("ovl3", "eq3", "xy"),
+          ("rot3", "eq3", "xy"), ("eq3", "eq3", "yx"), ("eq3", "rev3", "yx"), ("rot3", "rot3" if False else "eq3", "yx")]
 VARS1 = [("one", "eq", "xy"), ("one2", "eq", "xy"), ("one", "perm", "xy"), ("one2", "eq", "yx")]
 
 
@@ -52,7 +57,7 @@ def _spec(var, k, nd):
 def shards(tier):
     out = []
     nmax = bounds(tier)["max_arrays"]
-    for fam, V in (("2", VARS2), ("3", VARS3), ("1", VARS1)):
+    for fam, V in (("2", VARS2), ("3", VARS3), ("1", VARS1), ("33", VARS33)):
         for n in range(1, nmax + 1):
             if fam == "3" and n > 3:
                 continue
@@ -65,7 +70,7 @@ def shards(tier):
 
 
 def _V(fam):
-    return {"2": VARS2, "3": VARS3, "1": VARS1}[fam]
+    return {"2": VARS2, "3": VARS3, "1": VARS1, "33": VARS33}[fam]
 
 
 def cases(sh, tier):
